@@ -29,10 +29,11 @@ if TYPE_CHECKING:
 
 def _restore_dim_order(result, obj, by, no_groupby_reorder=False):
     def lookup_order(dimension):
-        if dimension == by.name and by.ndim == 1:
-            (dimension,) = by.dims
+        if dimension == by.name:
             if no_groupby_reorder:
                 return -1e6  # some arbitrarily low value
+            if by.ndim == 1:
+                (dimension,) = by.dims
         if dimension in obj.dims:
             axis = obj.get_axis_num(dimension)
         else:
